@@ -107,6 +107,8 @@ def nonzero_guard(fn, bi, den):
         elif k == 'Is:is_empty' and c['truth'] is False:
             if norm(c['a']) in lens:
                 return c
+        elif k == 'bool' and c.get('truth') is True and norm(c['a']) in cands:
+            return c   # `match n { 0 => .., _ => here }`
         elif k == 'value':
             # match on an integer: every label leading here excludes 0
             if norm(c['a']) in cands and '0' not in c['values'] and 'else' in c['values']:
